@@ -538,8 +538,11 @@ class Fortran90OperatorsRule(GenericRule):  # Coding standards 4.15
                 op_str = op if op != '!=' else '/='
                 line = [line for line in lines if op_str in strip_inline_comments(line.string)]
                 if not line:
+                    f77_pattern = re.compile(re.escape(cls._op_map[op_str]), re.I)
                     line = [line for line in lines
-                            if op_str in strip_inline_comments(line.string.replace(cls._op_map[op_str], op_str))]
+                            if op_str in strip_inline_comments(f77_pattern.sub(op_str, line.string))]
+                if not line:
+                    continue
 
                 source_string = strip_inline_comments(line[0].string)
                 matches = cls._op_patterns[op].findall(source_string)
